@@ -27,8 +27,9 @@ type Case struct {
 	K      int    `json:"k"`    // number of basis functions, 0 = no projectors
 	MStyle int    `json:"mstyle"`
 	MSeed  uint64 `json:"mseed"`
-	Bad    int    `json:"bad"`  // 0 compatible shapes; 1 projector columns n+1; 2 basis rows n+1; 3 basis columns k+1
-	Kind   string `json:"kind"` // generator label (tag only)
+	Bad    int    `json:"bad"`   // 0 compatible shapes; 1 projector columns n+1; 2 basis rows n+1; 3 basis columns k+1
+	Kind   string `json:"kind"`  // generator label (tag only)
+	Batch  int    `json:"batch"` // 0: the record alone; 1: [decoy, record]; 2: [record, decoy]; 3: [decoy, record, decoy] in ONE AnalyzeData call
 }
 
 // ---------- float rendering ----------
@@ -237,7 +238,8 @@ func runCase(c Case) lib.Result {
 		K, M int
 		Sd   uint64
 		B    int
-	}{c.Signed, c.Pre, c.Data, c.K, c.MStyle, c.MSeed, c.Bad})}
+		Bt   int
+	}{c.Signed, c.Pre, c.Data, c.K, c.MStyle, c.MSeed, c.Bad, c.Batch})}
 	n := len(c.Data)
 	data := make([]uint16, n)
 	for i, v := range c.Data {
@@ -284,7 +286,24 @@ func runCase(c Case) lib.Result {
 				out.Panic = true
 			}
 		}()
-		rec = dsp.VerifAnalyze(data, c.Pre, c.Signed)
+		if c.Batch == 0 || n == 0 {
+			rec = dsp.VerifAnalyze(data, c.Pre, c.Signed)
+			return
+		}
+		// the same record analysed next to other records in one call: results must not depend on neighbours
+		decoy := make([]uint16, n)
+		for i := range decoy {
+			decoy[i] = data[(i+1)%n] + 12345
+		}
+		tags[fmt.Sprintf("batch%d", c.Batch)] = true
+		switch c.Batch {
+		case 1:
+			rec = dsp.VerifAnalyzeBatch([][]uint16{decoy, data}, c.Pre, c.Signed)[1]
+		case 2:
+			rec = dsp.VerifAnalyzeBatch([][]uint16{data, decoy}, c.Pre, c.Signed)[0]
+		default:
+			rec = dsp.VerifAnalyzeBatch([][]uint16{decoy, data, decoy}, c.Pre, c.Signed)[1]
+		}
 	}()
 	if out.Panic {
 		tags["panic"] = true
@@ -557,7 +576,7 @@ func gen(seed uint64, tier string) []interface{} {
 		q := r.Fork()
 		n, p := genSizes(q, i >= nScalar)
 		kind := kinds[i%len(kinds)]
-		add(Case{Signed: q.Bool(), Pre: p, Data: genRecord(q, kind, n, p), Kind: kind})
+		add(Case{Signed: q.Bool(), Pre: p, Data: genRecord(q, kind, n, p), Kind: kind, Batch: q.Pick([]int{0, 0, 1, 2, 3})})
 	}
 	for i := 0; i < nProj+nProjBig+nBad; i++ {
 		q := r.Fork()
@@ -573,7 +592,7 @@ func gen(seed uint64, tier string) []interface{} {
 		}
 		kind := kinds[(i*7+3)%len(kinds)]
 		c := Case{Signed: q.Bool(), Pre: p, Data: genRecord(q, kind, n, p), Kind: kind,
-			K: k, MStyle: i % 4, MSeed: q.U64()}
+			K: k, MStyle: i % 4, MSeed: q.U64(), Batch: q.Pick([]int{0, 0, 1, 2, 3})}
 		if i >= nProj+nProjBig {
 			c.Bad = 1 + i%3
 		}
